@@ -27,6 +27,8 @@ GRIDS = {
     "E4": (4, ("0", M.TAP, M.ROLL, M.TAIL), 1, 2),
     # rows on different beats that lie inside one 1/48 tick (and a row exactly one tick later)
     "T": (2, ("0", M.TAP, M.HOLD, M.TAIL), 3, 3),
+    # two notes in one cell (ill-formed, but still a position-sorted stream)
+    "S": (2, ("0", M.TAP, M.HOLD, M.TAIL, "1+2", "2+1"), 2, 3),
 }
 CLOSE_BEATS = [Fraction(1), Fraction(97, 96), Fraction(49, 48), Fraction(197, 192)]
 
@@ -256,7 +258,11 @@ def explore_shard(acc, shard):
         _, grid, prefix, maxrows, _plen = shard
         beat_off = 0
         cols, alphabet, _, _ = GRIDS[grid]
-        types = [a for a in alphabet if a != "0"]
+        types = []
+        for a in alphabet:
+            for part in a.split("+"):
+                if part != "0" and part not in types:
+                    types.append(part)
         rows = N.grid_rows(cols, alphabet)
         beats = (CLOSE_BEATS if grid == "T" else BEATS[beat_off:]) + [Fraction(12 + i) for i in range(4)]
         layer = f"grid {grid}"
@@ -340,7 +346,7 @@ def explore(run):
     acc = run.acc
     run.rule = (
         "construction tree: note streams built row by row on grids "
-        + ", ".join(f"{g}={c}col x<={t if run.thorough() else q}rows over {''.join(a)}" for g, (c, a, q, t) in GRIDS.items())
+        + ", ".join(f"{g}={c}col x<={t if run.thorough() else q}rows over {' '.join(a)}" for g, (c, a, q, t) in GRIDS.items())
         + "; every node checked under every subset of the grid's note types x 3 same-beat modes x "
         "(join off + join on x 3x3 orphan policies) and all count_* option combinations; plus every corpus chart. "
         "A state is a distinct stream; non-trivial = contains a head/tail or two notes on one beat."
